@@ -572,8 +572,10 @@ JANET_CORE_FN(cfun_net_connect,
 #else
         if (err != EINPROGRESS) {
 #endif
-            JSOCKCLOSE(sock);
+            /* The stream owns the socket now, so close it through the stream (its finalizer would
+             * otherwise close the same descriptor number a second time). */
             Janet lasterr = janet_ev_lasterr();
+            janet_stream_close(stream);
             janet_panicf("could not connect socket: %V", lasterr);
         }
     }
